@@ -6,7 +6,7 @@ import { fileURLToPath } from 'node:url';
 
 const here = path.dirname(fileURLToPath(import.meta.url));
 export const CORPUS_DIR = path.join(here, '..', 'corpus');
-export const FIXTURE_DIR = '/repo/visitor/tests/fixture';
+export const FIXTURE_DIR = `${process.env.VERIF_REPO || '/repo'}/visitor/tests/fixture`;
 
 // ---------------------------------------------------------------- G-FUZZ
 const TAGS = ['div', 'span', 'input', 'select', 'textarea', 'svg', 'clipPath', 'font-face', 'A', 'Foo', 'foo', 'x-y', 'a.b', 'a.b.c', 'this.C', 'Fragment', '_Fragment', 'KeepAlive', 'Teleport', 'Transition', 'svg:rect', 'xlink:a', 'A1', '$c', '_x'];
